@@ -22,6 +22,12 @@ const PREFIX_FINDING: &str = "C12-prefix-collapses-distinct-keys";
 /// reported path of S/x
 const ALIAS_FINDING: &str = "C12-outside-source-dir-keeps-own-name";
 
+/// no source dir: the reported path is the LEXICAL normal form of the key (`normalize_path` drops
+/// `x/..`), the absolute path is PHYSICAL (`canonicalize`: the parent of a symbolic link's target).
+/// With a `..` behind a link the reported path then names another file than the record's own, and
+/// two keys denoting different files share one reported path
+const DOTDOT_FINDING: &str = "C12-dotdot-behind-link-resolved-lexically";
+
 /// the entry a record's data comes from: every generated entry carries one count-0 line 20+i
 fn entry_marks(c: &CovResult) -> BTreeSet<u32> {
     c.lines.keys().filter(|&&l| (20..1000).contains(&l)).cloned().collect()
@@ -412,6 +418,16 @@ fn oracles(rep: &mut Report, t: &Tree, case: &C12Case, r: &Result<Recs, String>,
             aliases += 1;
             fails.push((format!("{:?} is reported for two different files (one lies outside the source dir and keeps the key's own name as its relative path)", rel), Some(ALIAS_FINDING)));
             name = Some(ALIAS_FINDING);
+        } else if case.cfg.sd.is_none() && sharing.iter().any(|(a, r, c)| {
+            // matcher of C12-dotdot-behind-link-resolved-lexically: no source dir; the records denote
+            // different files; for one of them the reported path, read from the cwd, is NOT the file
+            // its absolute path denotes, and a key behind it has a ".." segment
+            file_id(r, &t.cw) != file_id(a, &t.cw)
+                && flat.iter().filter(|(_, c2)| !marked || !entry_marks(c2).is_disjoint(&entry_marks(c)))
+                    .any(|(k, _)| spec_mapped(&case.cfg, k).split('/').any(|seg| seg == ".."))
+        }) {
+            fails.push((format!("{:?} is reported for two different files (a \"..\" behind a symbolic link: the reported path is lexical, the absolute path physical)", rel), Some(DOTDOT_FINDING)));
+            name = Some(DOTDOT_FINDING);
         } else {
             fails.push((format!("{:?} is reported more than once with different absolute paths", rel), None));
             name = None;
@@ -851,6 +867,38 @@ fn witness_review6(rep: &mut Report) {
     std::env::set_current_dir("/verif").unwrap();
 }
 
+/// Props.C12.C12_dotdot_behind_link_witness on the real code: cwd/bar.c, src/bar.c, cwd/lnk -> src/d
+fn witness_dotdot(rep: &mut Report) {
+    let base = rep.workdir.join("fs");
+    let s = |x: &[&str]| -> Vec<String> { x.iter().map(|y| y.to_string()).collect() };
+    let mut t = materialise(&base, 907, &s(&["src", "other", "cw", "src/d"]), &s(&["cw/bar.c", "src/bar.c"]));
+    add_links(&mut t, &[("cw/lnk".into(), "{root}/src/d".into())]);
+    std::env::set_current_dir(&t.cw).unwrap();
+    let batch: Vec<(String, CovResult)> = ["bar.c", "lnk/../bar.c"].iter().enumerate().map(|(i, k)| {
+        let mut c = CovResult::default();
+        c.lines.insert(1, i as u64 + 1);
+        (k.to_string(), c)
+    }).collect();
+    let case = C12Case { cfg: Cfg { sd: None, pd: None, mapping: None, ignore: vec![], keep: vec![], ine: false, filter: None }, batches: vec![batch] };
+    let r = run_impl_c12(&case);
+    let req = request("addrewrite", &t, &case.cfg, &case.flat());
+    let model = run_model_named("gm_c12", &[req.clone()], &rep.workdir, "witnessdd");
+    rep.case(&req, true);
+    rep.count("witness.dotdot_behind_link");
+    let mut v = vec![format!("A{}:R{}=L1:1;B;F", hex(format!("{}/bar.c", t.cw).as_bytes()), hex(b"bar.c")),
+                     format!("A{}:R{}=L1:2;B;F", hex(format!("{}/bar.c", t.src).as_bytes()), hex(b"bar.c"))];
+    v.sort();
+    let want = format!("ok {}", v.join(" "));
+    if model[0] != want {
+        rep.fail("disagreement", None, format!("the driver does not reproduce C12_dotdot_behind_link_witness: {}", model[0]), case.to_json(&t));
+    }
+    if show_recs(&r) == want {
+        rep.count("witness.dotdot_behind_link.reproduced_on_real_code");
+    }
+    report_case(rep, &t, &case, &r, &model[0], "witnessdd");
+    std::env::set_current_dir("/verif").unwrap();
+}
+
 /// The same property through the command line (main()'s wiring of --source-dir, --prefix-dir and
 /// --path-mapping around add_results and rewrite_paths): every input names files that exist under
 /// the source directory (the `canonical` guard of C12_unique_partial), in several spellings.
@@ -961,6 +1009,7 @@ pub fn run(rep: &mut Report) {
     witness_prefix(rep);
     witness_links(rep);
     witness_review6(rep);
+    witness_dotdot(rep);
     corpus(rep);
     java::run(rep);
     stream(rep, &mut rng);
